@@ -1,3 +1,4 @@
+mod c15;
 mod c16;
 mod report;
 mod rng;
@@ -49,6 +50,7 @@ fn main() {
     }
     util::install_panic_hook();
     match id.as_str() {
+        "C15" => c15::run(tier, seed),
         "C16" => c16::run(tier, seed),
         _ => {
             eprintln!("unknown property {id}");
